@@ -183,7 +183,7 @@ Proof. intros st T. unfold rt_fire_all. apply rt_fire_enough; [exact T|lia]. Qed
 Lemma rt_step_tinv : forall st ev, rt_ev_ok ev -> rt_tinv st ->
   rt_tinv (fst (rt_step st ev)) /\ ~ In RoFuel (snd (rt_step st ev)).
 Proof.
-  intros st ev Hev T. destruct ev as [dt|s m b cfg r| |s m|s m|s m tok|s reason|]; cbn [rt_step].
+  intros st ev Hev T. destruct ev as [dt|s m b cfg r| |s m|s m|s m tok|s reason|tmo|]; cbn [rt_step].
   - cbn [fst snd]. split; [|intros []]. destruct T as (W & B & F).
     split; [exact W|]. split; [|exact F]. cbn. intros X. specialize (B X). cbn in Hev. lia.
   - unfold rt_send. cbn [fst snd]. split.
@@ -245,6 +245,18 @@ Proof.
       * eapply Permutation_Forall in F; [|exact P]. apply Forall_app in F. tauto.
     + destruct rm as [|n rm]; [intros [X|[]]; discriminate|].
       intros I. apply in_map_iff in I. destruct I as (x & X & _). discriminate.
+  - unfold rt_io_process.
+    pose proof (rt_fire_all_ok st T) as H1. destruct (rt_fire_all st) as [st1 o1].
+    destruct H1 as (NF1 & _ & T1 & _). destruct (rt_wait st1) as [w hd].
+    set (et := rt_epoll_timeout w tmo).
+    set (st2 := rt_mk_state _ (rs_base st1) (rs_q st1) (rs_uid st1)).
+    assert (T2 : rt_tinv st2).
+    { destruct T1 as (W & B & F). split; [exact W|]. split; [|exact F].
+      cbn [st2 rs_q rs_base rs_now]. intros X. specialize (B X). destruct (0 <? et) eqn:E; lia. }
+    pose proof (rt_fire_all_ok st2 T2) as H3. destruct (rt_fire_all st2) as [st3 o3].
+    destruct H3 as (NF3 & _ & T3 & _). cbn [fst snd]. split; [exact T3|].
+    intros I. apply in_app_or in I. destruct I as [I|[I|I]]; [exact (NF1 I)|discriminate|].
+    apply in_app_or in I. destruct I as [I|[I|[]]]; [exact (NF3 I)|discriminate].
   - cbn [fst snd]. split; [exact T|]. intros [X|[]]; discriminate.
 Qed.
 
@@ -541,4 +553,81 @@ Proof.
         eexists (_ :: _ :: o'). reflexivity. }
     destruct (G (Z.to_nat mx) 0%nat) as [o' E]. rewrite E. cbn [Nat.add].
     exists (RoWait t0 T (t0 + T) :: o'). reflexivity.
+Qed.
+
+(* ------------------------------------------------------------------ coap_io_process *)
+Lemma rt_wait_after_fire : forall st1 w hd,
+  rt_tinv st1 -> rt_due st1 = false -> rt_wait st1 = (w, hd) -> rt_wait_ok st1 w hd.
+Proof.
+  intros st1 w hd (W & B & F) D Wt. unfold rt_wait_ok. unfold rt_wait in Wt.
+  destruct (rs_q st1) as [|[t0 n0] rest] eqn:Q.
+  - inversion Wt; subst. cbn. tauto.
+  - inversion Wt; subst. cbn [sq_abs].
+    assert (Bn : rs_base st1 <= rs_now st1) by (apply B; discriminate).
+    assert (Lt : rs_now st1 < rs_base st1 + t0).
+    { unfold rt_due in D. rewrite Q in D. lia. }
+    rewrite rt_ceil_ms.
+    replace (t0 - (rs_now st1 - rs_base st1)) with (rs_base st1 + t0 - rs_now st1) by lia.
+    split; [reflexivity|]. split; [exact Lt|]. split.
+    + cbn in W. destruct (sq_abs_sorted_from rest (rs_base st1 + t0) W) as [_ X]. exact X.
+    + unfold fp_u32. split; [reflexivity|]. split.
+      * pose proof (Z.mod_pos_bound (rs_base st1 + t0 - rs_now st1) 4294967296 ltac:(lia)).
+        pose proof (Z.mod_le (rs_base st1 + t0 - rs_now st1) 4294967296 ltac:(lia) ltac:(lia)). lia.
+      * intros Small. rewrite Z.mod_small by lia. lia.
+Qed.
+
+Lemma rt_epoll_timeout_spec : forall w tmo, 0 <= w < 4294967296 -> 0 <= tmo < 4294967296 ->
+  let et := rt_epoll_timeout w tmo in
+  -1 <= et <= rt_INT_MAX /\
+  (et = -1 -> w = 0 /\ tmo = rt_IO_WAIT) /\        (* sleeps for ever only if nothing is pending *)
+  (0 < w < 2147483648 -> 0 <= et <= w) /\          (* never longer than the reported wait *)
+  (tmo = rt_IO_WAIT -> 0 < w < 2147483648 -> et = w) /\
+  (tmo = rt_IO_NO_WAIT -> et = 0).
+Proof.
+  intros w tmo Hw Ht. unfold rt_epoll_timeout, rt_as_int, rt_IO_WAIT, rt_IO_NO_WAIT, rt_INT_MAX.
+  destruct (tmo =? 4294967295) eqn:E1; [lia|].
+  destruct ((w =? 0) && (tmo =? 0)) eqn:E2; [lia|].
+  destruct ((w =? 0) || (negb (tmo =? 0) && (tmo <? w))) eqn:E3.
+  - destruct (tmo <? 2147483648) eqn:E4; [|destruct (tmo - 4294967296 <? 0) eqn:E5; lia].
+    destruct (tmo <? 0) eqn:E5; lia.
+  - destruct (w <? 2147483648) eqn:E4; [|destruct (w - 4294967296 <? 0) eqn:E5; lia].
+    destruct (w <? 0) eqn:E5; lia.
+Qed.
+
+(* coap_io_process in a state that satisfies the invariant: it fires what is due, hands
+   epoll_wait a sleep that is never longer than the reported wait - hence (rt_wait_ok) never past
+   the earliest pending deadline - and "for ever" only when nothing is pending; afterwards again
+   nothing due is left; it returns the time it slept *)
+Theorem rt_io_process_sound : forall st tmo,
+  rt_tinv st -> 0 <= tmo < 4294967296 ->
+  let (st', o) := rt_io_process st tmo in
+  exists st1 o1 w hd o3,
+    rt_fire_all st = (st1, o1) /\ rt_wait st1 = (w, hd) /\ rt_wait_ok st1 w hd /\
+    let et := rt_epoll_timeout w tmo in
+    o = o1 ++ RoEpoll (rs_now st) et :: o3 ++ [RoIoRet (rs_now st') (rs_now st' - rs_now st)] /\
+    ~ In RoFuel o /\ rt_due st' = false /\ rt_tinv st' /\
+    rs_now st' = rs_now st + (if 0 <? et then et else 0) /\
+    (et = -1 -> w = 0 /\ tmo = rt_IO_WAIT) /\ (0 < w < 2147483648 -> 0 <= et <= w).
+Proof.
+  intros st tmo T Ht. unfold rt_io_process.
+  pose proof (rt_fire_all_ok st T) as H1. destruct (rt_fire_all st) as [st1 o1] eqn:F1.
+  destruct H1 as (NF1 & D1 & T1 & N1). destruct (rt_wait st1) as [w hd] eqn:Wt.
+  pose proof (rt_wait_after_fire st1 w hd T1 D1 Wt) as WO.
+  assert (Hw : 0 <= w < 4294967296).
+  { unfold rt_wait in Wt. destruct (rs_q st1) as [|[t0 n0] r]; inversion Wt; subst; [lia|].
+    unfold fp_u32. apply Z.mod_pos_bound. lia. }
+  destruct (rt_epoll_timeout_spec w tmo Hw Ht) as (Rg & Inf & Le & _ & _).
+  set (et := rt_epoll_timeout w tmo) in *.
+  set (st2 := rt_mk_state _ (rs_base st1) (rs_q st1) (rs_uid st1)).
+  assert (T2 : rt_tinv st2).
+  { destruct T1 as (W & B & F). split; [exact W|]. split; [|exact F].
+    cbn [st2 rs_q rs_base rs_now]. intros X. specialize (B X). destruct (0 <? et) eqn:E; lia. }
+  pose proof (rt_fire_all_ok st2 T2) as H3. destruct (rt_fire_all st2) as [st3 o3].
+  destruct H3 as (NF3 & D3 & T3 & N3).
+  exists st1, o1, w, hd, o3. split; [first [reflexivity|exact F1]|]. split; [first [reflexivity|exact Wt]|]. split; [exact WO|].
+  cbv zeta. rewrite N1. split; [reflexivity|]. split.
+  - intros I. apply in_app_or in I. destruct I as [I|[I|I]]; [exact (NF1 I)|discriminate|].
+    apply in_app_or in I. destruct I as [I|[I|[]]]; [exact (NF3 I)|discriminate].
+  - split; [exact D3|]. split; [exact T3|]. split; [rewrite N3; cbn [st2 rs_now]; rewrite N1; reflexivity|].
+    split; [exact Inf|exact Le].
 Qed.
